@@ -32,7 +32,7 @@ def ref_value_eq(a, b):
         return a is None and b is None
     if isinstance(a, GroupedRecord) or isinstance(b, GroupedRecord):
         return isinstance(a, GroupedRecord) and isinstance(b, GroupedRecord) and a.name == b.name and len(a.records) == len(b.records) and all(
-            ref_record_eq(x, y, ()) for x, y in zip(a.records, b.records))
+            ref_record_eq(x, y, CURRENT_IGNORE[0]) for x, y in zip(a.records, b.records))
     if isinstance(a, Record) or isinstance(b, Record):
         return isinstance(a, Record) and isinstance(b, Record) and ref_record_eq(a, b, CURRENT_IGNORE[0])
     if isinstance(a, ft.digest) and isinstance(b, ft.digest):
@@ -221,6 +221,9 @@ def run_structural(case):
         "other-field-type": (rs("s/a", [[t, "x"], ["filesize", "n"]], [v, "1"]), False),
         "field-order": (rs("s/a", [["varint", "n"], [t, "x"]], ["1", v]), False),
     }
+    # two type names with one Python-safe class name ('/' vs '_'), identical fields and values: different descriptors
+    U1 = rs("s/u_v", [[t, "x"], ["varint", "n"]], [v, "1"])
+    U2 = rs("s/u/v", [[t, "x"], ["varint", "n"]], [v, "1"])
     try:
         a = recs.build_record(A)
     except Exception as e:  # noqa: BLE001
@@ -228,6 +231,37 @@ def run_structural(case):
     C = rs("s/c", [["string", "c"]], ["'cc'"])
     c = recs.build_record(C)
     n = 0
+    try:
+        u1 = recs.build_record(U1)
+        u2 = recs.build_record(U2)
+        u1b = fresh_copy(U1)
+        outs.append(laws(u1, u2, (), "variant:slash-vs-underscore-name", dict(case, variant="slash-vs-underscore"), viol, want=False))
+        outs.append(laws(u1, u1b, (), "variant:slash-vs-underscore-name", dict(case, variant="slash-vs-underscore-copy"), viol))
+    except Exception as e:  # noqa: BLE001
+        viol.append(("C12:variant:slash-vs-underscore-name:raises-%s" % type(e).__name__, case, {"error": repr(e)[:200]}))
+    # hashes must follow the value: hash first, then change a member / the configuration, then compare with an equal rebuilt object
+    try:
+        from flow.record import GroupedRecord as _G
+
+        m1, m2 = recs.build_record(A), recs.build_record(C)
+        g = _G("s/gm", [m1, m2])
+        hash(g), hash(m1)
+        m2.c = "changed"
+        m1.n = 77
+        g_same = _G("s/gm", [fresh_copy(dict(A, values=[v, "77"])), fresh_copy(dict(C, values=["'changed'"]))])
+        outs.append(laws(g, g_same, (), "mutated-after-hash:grouped", dict(case, variant="mutated-after-hash"), viol))
+        outs.append(laws(m1, fresh_copy(dict(A, values=[v, "77"])), (), "mutated-after-hash:record", dict(case, variant="mutated-after-hash"), viol))
+        g2 = _G("s/gm", [recs.build_record(A), recs.build_record(C)])
+        g3 = _G("s/gm", [fresh_copy(dict(A, meta={"_source": "'elsewhere'"})), fresh_copy(C)])
+        hash(g2), hash(g3)
+        cm = set_ignore("ctx", ["_source", "_generated"])
+        try:
+            outs.append(laws(g2, g3, ["_source", "_generated"], "config-changed-after-hash:grouped", dict(case, variant="config-after-hash"), viol))
+        finally:
+            cm.__exit__(None, None, None)
+        outs.append(laws(g2, g3, (), "config-changed-after-hash:grouped", dict(case, variant="config-after-hash-restored"), viol))
+    except Exception as e:  # noqa: BLE001
+        viol.append(("C12:mutated-after-hash:raises-%s" % type(e).__name__, case, {"error": repr(e)[:200]}))
     for name, (spec, want) in variants.items():
         b = fresh_copy(spec)
         n += 1
